@@ -3,3 +3,6 @@
 package saml
 
 func verifMaterialise(d *verifDoc) []byte
+
+func verifMaterialiseLogout(lr *LogoutResponse, sign int, rootless bool) []byte
+func verifDeflate(b []byte) []byte
